@@ -145,7 +145,7 @@ def make_start(lb, ub, rng: np.random.Generator, where: str):
 
 def make_problem(seed: int, family: Optional[str] = None, n: Optional[int] = None,
                  box: Optional[str] = None, start: Optional[str] = None,
-                 families: Optional[List[str]] = None) -> Problem:
+                 families: Optional[List[str]] = None, zero_bounds: bool = False) -> Problem:
     rng = np.random.default_rng(seed)
     fams = families or (CONVEX + NONCONVEX)
     family = family or fams[int(rng.integers(0, len(fams)))]
@@ -155,6 +155,18 @@ def make_problem(seed: int, family: Optional[str] = None, n: Optional[int] = Non
     start = start or ["interior", "face", "vertex"][int(rng.integers(0, 3))]
     fun, grad, convex, L = make_objective(family, n, rng)
     lb, ub = make_box(box, n, rng)
+    if zero_bounds:
+        # bounds that are exactly zero (a value with special status in many "truthiness" shortcuts), from a generator of their
+        # own so that the other draws are the same with and without them
+        zr = np.random.default_rng(seed * 7919 + 13)
+        for i in range(n):
+            if zr.random() < 0.25:
+                if np.isfinite(lb[i]) and np.isfinite(ub[i]) and lb[i] == ub[i]:
+                    lb[i] = ub[i] = 0.0
+                elif np.isfinite(lb[i]) and zr.random() < 0.6:
+                    lb[i] = 0.0
+                elif np.isfinite(ub[i]):
+                    ub[i] = 0.0
     x0 = make_start(lb, ub, rng, start)
     return Problem(f"{family}/n={n}/{box}/{start}", n, fun, grad, lb, ub, x0, convex, L,
                    {"seed": seed, "family": family, "n": n, "box": box, "start": start})
@@ -288,12 +300,12 @@ def make_update(kind: str, seed: int, switch_at: int):
 
 
 def scenario(seed: int, features: Optional[Dict[str, Any]] = None, families=None,
-             small_budgets=None, n=None, box=None) -> Tuple[Dict[str, Any], Dict[str, Any], Problem]:
+             small_budgets=None, n=None, box=None, zero_bounds=False) -> Tuple[Dict[str, Any], Dict[str, Any], Problem]:
     """kwargs for minimize_lbfgsb + a JSON-able description. `features` forces options;
     otherwise they are drawn from the seed."""
     r = random.Random(seed * 104729 + 7)
     feat = dict(features or {})
-    p = make_problem(seed, families=families, n=n, box=box)
+    p = make_problem(seed, families=families, n=n, box=box, zero_bounds=bool(zero_bounds))
     sb = (r.random() < 0.35) if small_budgets is None else small_budgets
     cfg = make_config(seed, small_budgets=sb)
     kw: Dict[str, Any] = dict(x0=p.x0.copy(), fun=p.fun, jac=p.grad, bounds=p.bounds, **cfg)
